@@ -126,6 +126,33 @@ type VTicker struct {
 	D       time.Duration
 	Stopped bool
 	Index   int
+	// F and Deadline: a time.AfterFunc timer. It does not fire by itself; a harness that moves
+	// the clock inside an activity calls FireDueFuncs to run the callbacks whose time has come.
+	F        func()
+	Deadline time.Time
+}
+
+// FireDueFuncs runs, in the calling thread, the callback of every armed AfterFunc timer whose
+// deadline the virtual clock has reached (earliest first) and returns how many ran. A real
+// timer would run its callback on a goroutine of its own at that instant; running it at the
+// point where the harness moved the clock is one of the orders the real program can show.
+func (s *Sched) FireDueFuncs() int {
+	n := 0
+	for {
+		var due *VTicker
+		now := Now()
+		for _, t := range s.Tickers {
+			if t.F != nil && !t.Stopped && !t.Deadline.After(now) && (due == nil || t.Deadline.Before(due.Deadline)) {
+				due = t
+			}
+		}
+		if due == nil {
+			return n
+		}
+		due.Stopped = true
+		due.F()
+		n++
+	}
 }
 
 // NewVTicker registers a ticker with the running execution.
